@@ -4,6 +4,8 @@ CONSTANTS
   GenSeed = 1
   NCases = 4
   Emit = FALSE
+  MinV = 1
+  TwoStatus = FALSE
 INIT InitB
 NEXT NextB
 INVARIANT InvB
